@@ -3,6 +3,7 @@ package main
 import (
 	"net/http"
 	"fmt"
+	"io"
 	"net/http/httptest"
 	"strconv"
 	"strings"
@@ -57,12 +58,12 @@ func parseChainActs(s string) ([]chainAct, bool) {
 		}
 		k := tok[0]
 		switch k {
-		case 'n', 'a', 't', 'R':
+		case 'n', 'a', 't', 'R', 'd':
 			if len(tok) != 1 {
 				return nil, false
 			}
 			out = append(out, chainAct{kind: k})
-		case 'e', 's', 'x', 'i', 'c', 'w', 'b':
+		case 'e', 's', 'x', 'i', 'c', 'w', 'b', 'W', 'Y':
 			n, err := strconv.Atoi(tok[1:])
 			if err != nil || n < 0 {
 				return nil, false
@@ -79,6 +80,8 @@ func parseChainActs(s string) ([]chainAct, bool) {
 type chainRun struct {
 	trace []string
 	ctx   *rux.Context
+
+	cxaUsed bool // the request has already re-dispatched once (action `d`)
 }
 
 func (cr *chainRun) add(format string, a ...interface{}) {
@@ -140,6 +143,8 @@ func mkHandler(cr *chainRun, pos int, acts []chainAct) rux.HandlerFunc {
 			case 'w':
 				cr.add("W%d.%d", pos, a.arg)
 				_, _ = c.Resp.Write([]byte(strconv.Itoa(a.arg) + ";"))
+			case 'W', 'Y', 'd':
+				cxaAct(cr, pos, a, c)
 			}
 		}
 		cr.add("L%d", pos)
@@ -300,6 +305,7 @@ func (s *chainState) cxServe(variant int, failFrom int) (ans string, oracle []st
 	}
 	s.run.trace = nil
 	s.run.ctx = nil
+	s.run.cxaUsed = false
 	rec := httptest.NewRecorder()
 	req := httptest.NewRequest("GET", s.path, nil)
 	if failFrom >= 0 {
@@ -326,7 +332,11 @@ func (s *chainState) cxServe(variant int, failFrom int) (ans string, oracle []st
 	}
 	total := len(s.g) + len(s.p) + len(s.r) + 1
 	if total <= rux.VerifAbortIndex() {
-		oracle = chainOracle(tr, total)
+		if cxaHasRedispatch(tr) {
+			oracle = cxaOracle(tr)
+		} else {
+			oracle = chainOracle(tr, total)
+		}
 	}
 	return fmt.Sprintf("%s %s st=%d ;; idx=%s", kind, t, rec.Code, idx), oracle
 }
@@ -380,6 +390,95 @@ func chainOracle(tr []string, total int) (out []string) {
 	}
 	if !aborted && nextEnter != total {
 		out = append(out, fmt.Sprintf("C04 rest follows: nobody aborted but only %d of %d handlers ran", nextEnter, total))
+	}
+	return
+}
+
+/**************** cxa: writes through io.StringWriter, re-dispatch from inside a handler ****************/
+
+// cxaAct: the actions
+//
+//	W<t>  io.WriteString(c.Resp, chunk t)                  (for the model: `w<t>`, a write of the body)
+//	Y<t>  io.Copy(c.Resp, strings.NewReader(chunk t))      (the same)
+//	d     c.Router().HandleContext(c): the handler dispatches its own context again (the request is unchanged, so
+//	      the SAME route's chain runs once more on the same context: Reset, match, chain, header commit), then goes
+//	      on. Only the first `d` of a request re-dispatches (event D<h> ... C<h>), every later one - in particular the
+//	      same action met again inside the re-entered chain - does nothing (event X<h>).
+func cxaAct(cr *chainRun, pos int, a chainAct, c *rux.Context) {
+	switch a.kind {
+	case 'W':
+		cr.add("W%d.%d", pos, a.arg)
+		_, _ = io.WriteString(c.Resp, strconv.Itoa(a.arg)+";")
+	case 'Y':
+		cr.add("W%d.%d", pos, a.arg)
+		_, _ = io.Copy(c.Resp, strings.NewReader(strconv.Itoa(a.arg)+";"))
+	case 'd':
+		if cr.cxaUsed {
+			cr.add("X%d", pos)
+			return
+		}
+		cr.cxaUsed = true
+		cr.add("D%d", pos)
+		c.Router().HandleContext(c)
+		cr.add("C%d", pos)
+	}
+}
+
+func cxaHasRedispatch(tr []string) bool {
+	for _, e := range tr {
+		if e[0] == 'D' {
+			return true
+		}
+	}
+	return false
+}
+
+// cxaOracle: the C05 clauses on a trace with a re-dispatch. A re-dispatch starts the chain anew (Reset), so
+// "aborted" means: some handler aborted since the chain was last started; it stays what the re-entered chain left
+// when HandleContext returns. No handler may start while aborted, every IsAborted() sample must say exactly that,
+// handlers return last in, first out.
+func cxaOracle(tr []string) (out []string) {
+	aborted := false
+	var stack []string
+	for k, e := range tr {
+		h := e[1:]
+		if i := strings.IndexByte(h, '.'); i >= 0 {
+			h = h[:i]
+		}
+		switch e[0] {
+		case 'D':
+			aborted = false
+			stack = append(stack, "D"+h)
+		case 'C':
+			if len(stack) == 0 || stack[len(stack)-1] != "D"+h {
+				out = append(out, fmt.Sprintf("C05 suspended handlers: the re-dispatch of handler %s returned while handlers of the re-entered chain were running", h))
+			} else {
+				stack = stack[:len(stack)-1]
+			}
+		case 'E':
+			if aborted {
+				out = append(out, fmt.Sprintf("C05 no later start: handler %s starts after an abort (event %d of %s)", h, k, strings.Join(tr, ",")))
+			}
+			stack = append(stack, h)
+		case 'L':
+			if len(stack) == 0 || stack[len(stack)-1] != h {
+				out = append(out, fmt.Sprintf("C04 reverse order: handler %s returns but is not the innermost running handler", h))
+			} else {
+				stack = stack[:len(stack)-1]
+			}
+		case 'A':
+			aborted = true
+		case 'P':
+			if got := strings.HasSuffix(e, ".1"); got != aborted {
+				out = append(out, fmt.Sprintf("C05 IsAborted: handler %s saw %v, abort happened before: %v", h, got, aborted))
+			}
+		}
+		if len(out) > 3 {
+			return
+		}
+	}
+	if len(stack) != 0 {
+		out = append(out, "C05 suspended handlers: some handler never returned")
 	}
 	return
 }
@@ -602,6 +701,17 @@ func (chainEngine) Corpus() []Case {
 		{Ops: []string{"new", "g w1,R,i1", "r n,x403,i1", "r i0,w2", "m x500,i3", "servef 0 1", "servef 9 2", "servef 0 0"}},
 		{Ops: []string{"new", "g b7,R", "r e1,n,i1", "m x404,n", "servef 0 0", "servef 0 1"}},
 		{Ops: []string{"new", "g e1,n", "r x401", "m e2", "servef 0 0", "servef 3 5"}},
+		// AbortWithStatus(code) without message, the first body bytes travel through io.WriteString / io.Copy from a
+		// strings.Reader (the io.StringWriter route of the writer): by the aborting handler, by a suspended one
+		chainCaseOf([]string{"i0,n,i1"}, nil, []string{"s403,W1,i1"}, "e1"),
+		chainCaseOf([]string{"n,Y2"}, []string{"e1,n"}, []string{"s402"}, "w1", "0", "5"),
+		chainCaseOf([]string{"c201,W1,n"}, nil, nil, "s500,Y1"),
+		// a handler dispatches its own context again (Router.HandleContext from inside the chain): a handler of the
+		// re-entered chain aborts; the handlers behind the forwarding one must not start, IsAborted() stays true
+		chainCaseOf([]string{"e1,n,i1"}, []string{"d,i1,n,i2"}, []string{"e2,n"}, "s403,i3", "0", "9"),
+		// re-dispatch after the handler wrote / after its Next(); the second `d` of a request does nothing
+		chainCaseOf([]string{"n,d,i1"}, nil, []string{"w1,d,n"}, "i0,a", "0"),
+		chainCaseOf(nil, nil, nil, "c201,d,i0,c404", "0", "0"),
 	}
 	for i := range cs {
 		cs[i].Tag = "corpus"
@@ -777,6 +887,90 @@ func cxFaultStream(r *Rand, ops []string) bool {
 	return true
 }
 
+// cxaStream (drawn after everything else of the case): two scenario classes, one case in eight each.
+//
+//	iostr:      body writes go through io.WriteString(c.Resp, ..) / io.Copy(c.Resp, strings.NewReader(..)) instead of
+//	            c.Resp.Write (two thirds of the `w` actions are rewritten), and in two of three such cases one more
+//	            such write is planted right behind an AbortWithStatus(code) (when the chain has one, else anywhere);
+//	redispatch: one handler (in a quarter of the cases two) calls c.Router().HandleContext(c) - before its first
+//	            Next() in half of the cases, else anywhere among its actions. Not in chains with a buffering
+//	            wrapper around c.Resp (Reset puts the context's own writer back).
+func cxaStream(r *Rand, ops []string) (tag string) {
+	var hs []int // the handler lines
+	wrap := false
+	for i, op := range ops {
+		f := strings.Fields(op)
+		if len(f) == 2 && (f[0] == "g" || f[0] == "p" || f[0] == "r" || f[0] == "m") {
+			hs = append(hs, i)
+			if strings.HasPrefix(f[1], "b") || strings.Contains(f[1], ",b") {
+				wrap = true
+			}
+		}
+	}
+	toks := func(i int) (string, []string) {
+		f := strings.Fields(ops[i])
+		if f[1] == "-" {
+			return f[0], nil
+		}
+		return f[0], strings.Split(f[1], ",")
+	}
+	put := func(i int, kind string, ts []string) { ops[i] = kind + " " + chainActsStr(ts) }
+	ioWrite := func() string { return r.Pick([]string{"W", "Y"}) + strconv.Itoa(r.Intn(5)) }
+	if r.Chance(1, 8) && len(hs) > 0 {
+		tag += "-iostr"
+		var withS []int
+		for _, i := range hs {
+			kind, ts := toks(i)
+			for k, t := range ts {
+				if t[0] == 'w' && r.Chance(2, 3) {
+					ts[k] = r.Pick([]string{"W", "Y"}) + t[1:]
+				}
+				if t[0] == 's' {
+					withS = append(withS, i)
+				}
+			}
+			put(i, kind, ts)
+		}
+		if r.Chance(2, 3) {
+			i := hs[r.Intn(len(hs))]
+			if len(withS) > 0 {
+				i = withS[r.Intn(len(withS))]
+			}
+			kind, ts := toks(i)
+			at := r.Intn(len(ts) + 1)
+			for k, t := range ts {
+				if t[0] == 's' {
+					at = k + 1
+					break
+				}
+			}
+			put(i, kind, insertAt(ts, at, ioWrite()))
+		}
+	}
+	if r.Chance(1, 8) && len(hs) > 0 && !wrap {
+		tag += "-redispatch"
+		n := 1
+		if r.Chance(1, 4) {
+			n = 2
+		}
+		for ; n > 0; n-- {
+			i := hs[r.Intn(len(hs))]
+			kind, ts := toks(i)
+			at := r.Intn(len(ts) + 1)
+			if r.Bool() {
+				for k, t := range ts {
+					if t == "n" || t == "R" {
+						at = r.Intn(k + 1)
+						break
+					}
+				}
+			}
+			put(i, kind, insertAt(ts, at, "d"))
+		}
+	}
+	return
+}
+
 func (chainEngine) Gen(r *Rand, tier string) Case {
 	if r.Chance(1, 8) {
 		return genLimCase(r)
@@ -874,5 +1068,6 @@ func (chainEngine) Gen(r *Rand, tier string) Case {
 	if cxFaultStream(r, ops) {
 		plan += "-brokenconn"
 	}
+	plan += cxaStream(r, ops)
 	return Case{Ops: ops, Tag: tag + "-" + plan}
 }
